@@ -281,7 +281,7 @@ def unit_stage(res, tier):
     rng = random.Random(common.seed() * 1000003 + 6262)
     exe = c21.impl()
     runner = coq.build_runner("reqparse")
-    n = 6000 if tier == "quick" else 150000
+    n = 4000 if tier == "quick" else 150000
     corpus = std.load_corpus(PID)
     cases = corpus + gen_unit(rng, n)
     impl_out, model_out, dis = std.corr_stage(
